@@ -9,3 +9,8 @@ open Gossamer.C24
 #print axioms C24_own_claims_pass
 #print axioms verifyAuthorshipRight_ok
 #print axioms verifyPreRuntimeDigest_ok
+#print axioms C24_manager_history_independent
+#print axioms C24_manager_two_histories
+#print axioms C24_verifyBlock_iff_partial
+#print axioms C24_manager_accepts_authorised
+#print axioms C24_disabled_no_duplicates
